@@ -250,7 +250,16 @@ class ApiModel(object):
             lst.insert(i, v)
         elif name == 'extend':
             if composite:
-                vs = [copy.deepcopy(x) for x in args[0]]
+                items = args[0]
+                if items == 'SELF':             # the array extended with itself, as a list allows
+                    items = list(lst)
+                elif isinstance(items, ItArg):
+                    items = items.items
+                vs = []
+                for x in items:
+                    if not isinstance(x, (dict, list)):
+                        raise Reject(REJ, 'wrong-element-type')
+                    vs.append(copy.deepcopy(x))
             else:
                 vs = self._iter_values(args[0], chk)
             fits(len(lst) + len(vs))
@@ -487,6 +496,10 @@ def array_ops(model, sname, f, lst, depth, path):
             ops.append((path, 'extend', ([e1],)))
             ops.append((path, 'extend', ([e1, e1, e1],)))
             ops.append((path, 'extend', ([],)))
+            ops.append((path, 'extend', (ItArg([e1, e1]),)))
+            ops.append((path, 'extend', ('SELF',)))
+            ops.append((path, 'extend', ([e1, 'x'],)))
+            ops.append((path, 'extend', ([e1, None],)))
             ops.append((path, 'delitem', (0,)))
             ops.append((path, 'delitem', (99,)))
             ops.append((path, 'delslice', (0, 1)))
